@@ -193,6 +193,25 @@ fn t_c12(rng: &mut Rng, g: &mut GenCfg, w: &mut WorldCfg) {
     w.oracles = Some(Oracles { dump: true, ..Oracles::none() });
 }
 
+fn t_c18(rng: &mut Rng, g: &mut GenCfg, w: &mut WorldCfg) {
+    g.wsel = [40, 1, 0, 0, 0, 2, 14, 5, 5, 3];
+    g.pct_invalid = 0;
+    g.n_ops = rng.range(5, 16);
+    g.max_text_len = *rng.pick(&[3, 8, 12, 20, 40]);
+    g.n_res_ids = rng.range(1, 2);
+    g.w[W_PROTECT] = *rng.pick(&[6, 10]);
+    g.w[W_REMOVE_ANNOTATION] = *rng.pick(&[0, 2]);
+    g.w[W_REMOVE_DATA] = 0;
+    g.w[W_REMOVE_KEY] = 0;
+    g.w[W_REMOVE_RESOURCE] = 0;
+    g.w[W_REMOVE_DATASET] = 0;
+    g.w[W_ADD_DATASET] = 1;
+    g.w[W_INSERT_DATA] = 1;
+    w.ids_every = 0;
+    w.validation_phase = true;
+    w.oracles = Some(Oracles { forward: true, ..Oracles::none() });
+}
+
 fn t_c14(rng: &mut Rng, g: &mut GenCfg, w: &mut WorldCfg) {
     g.pct_invalid = *rng.pick(&[30, 50]);
     g.w[W_ANNOTATE_BATCH] = *rng.pick(&[0, 6, 10]);
@@ -308,6 +327,16 @@ pub fn profiles() -> Vec<Profile> {
             quick_runs: 1500,
             thorough_runs: 100000,
             rule: "one run = one seeded trace executed on three replicas that differ only in milestone_interval (0,1,2,3,7,100) and shrink_to_fit, each in lock-step with the reference model; the conversion oracle (every position and byte offset, on resources and sub-selections) runs after every step; probe answers (text search, split, trim, regex, segmentation, related text) must be equal across replicas; non-trivial and distinct as for the other lock-step checks",
+        },
+        Profile {
+            property: "C18",
+            engine: "stamsim-lockstep",
+            owners: &["C18"],
+            level: "fault_enumeration",
+            tweak: t_c18,
+            quick_runs: 600,
+            thorough_runs: 40000,
+            rule: "one run = one seeded history with protect_text steps (all four modes, repeated) followed by the validation phase: validate now, save as JSON with every non-empty resource as stand-off .txt in SimFs and reload, then for EVERY position of every text one substitution, one insertion (1-3 codepoints) and one deletion (1-3 codepoints) of the stand-off file, each followed by a fresh load and a comparison of validate_text per annotation with the model; non-trivial/distinct as for the other lock-step checks",
         },
         Profile {
             property: "C14",
